@@ -105,6 +105,15 @@ class C14(Prop):
                     parts[k + 1] = rng.choice(['..\n%s *b* & {m1}\n..', '""\n%s *b*\n""', '``\n- one *%s*\n- two\n``', '%s *b* & {m1}',
                                                '  indented *%s*', '> %s *b*', '# %s *b*', '- %s *b*\n\n', '<div>%s</div>',
                                                '--\n%s *b* {m1}\n--']).replace('%s', w) + '\n\n' + parts[k + 1]
+                elif rng.random() < 0.3:
+                    # block options consumed by the *last* block of one call (the reader is at end of input when it has been
+                    # rendered); the first block of the next call must not see them
+                    w = plain(rng)
+                    opt = ' '.join(rng.sample(['-macros', '-spans', '+macros', '+spans', '-specials', '+skip', '-container'], rng.randint(1, 2)))
+                    parts[k] += '\n\n.%s\n%s' % (opt, rng.choice(['last %s *b* {m1}', '``\nlast %s *b* {m1}\n``', '..\nlast %s *b*\n..',
+                                                                  '  last %s *b*', '/*\nlast\n*/']).replace('%s', w))
+                    parts[k + 1] = rng.choice(['first %s *b* & {m1}', '``\nfirst %s *b* {m1}\n``', '..\nfirst %s *b* {m1}\n..',
+                                               '> first %s *b*']).replace('%s', w) + '\n\n' + parts[k + 1]
             yield {'parts': parts, 'safeMode': mode, 'htmlReplacement': rng.choice([None, '[R]', '<i>gone</i>'])}
 
     def execute(self, case, ctx, res):
@@ -341,7 +350,11 @@ class C19(Prop):
                                    'term:: %s {m3}' % w, '""\n%s {m3}\n""' % w, '<div title="{m3}">', '{m3}',
                                    '- item\n.box [title="{m3}"]\n..\ninner\n..', '*{m3}*', '[{m3}](http://x.y/)', '`{m3}`',
                                    '.#i%d "margin: {m3}" [data-x="{m3}"]\n..\n%s\n..' % (rng.randint(1, 9999), w),
-                                   '{m3} ' + w])
+                                   '{m3} ' + w,
+                                   # inside the value of a definition, also one whose value is then discarded (the name exists)
+                                   "{m1?} = 'kept {m3}'", "{m1} = 'new {m3}'", "{m4?} = 'fresh {m3}'", "{m1?} = 'two\nlines {m3}'",
+                                   "{m4} = 'two\nlines {m3}'", "~ = '<u title=\"{m3}\">|</u>'", "/teh/ = 'the {m3}'",
+                                   "|code| = '<pre class=\"{m3}\">|</pre>'", ".htmlReplacement = '{m3}'"])
                 parts.insert(rng.randrange(2, len(parts) + 1), host)
                 expect = 'undefined macro: {m3}'
             elif f == 'option-value':
@@ -861,7 +874,16 @@ class C17(Prop):
                 exp = '<p>%s%s</p>' % (inline_e, esc(follow))
                 if mode == 1 and e == '<div>':
                     exp = '<p>&lt;div&gt;%s</p>' % esc(follow)
-                yield {'src': head + src, 'expected': exp, 'safeMode': mode, 'n': 1, 'line_level': True}
+                # what stands before the escaped line: nothing, a paragraph, a list whose look-ahead has already examined
+                # (and un-escaped) the line, a closed block
+                before, bexp = rng.choice([('', ''), ('', ''), ('para before\n\n', '<p>para before</p>'), ('- item\n\n', '<ul><li>item</li></ul>'),
+                                           ('. one\n.. two\n\n', '<ol><li>one<ol><li>two</li></ol></li></ol>'),
+                                           ('t:: d\n\n', '<dl><dt>t</dt><dd>d</dd></dl>'), ('- item\n\n\n', '<ul><li>item</li></ul>'),
+                                           ('..\ndiv\n..\n', '<p>div</p>'), ('- item\n\n  ``\n  c\n  ``\n\n', None)])
+                if bexp is None:
+                    before, bexp = '', ''
+                yield {'src': head + before + src, 'expected': bexp + exp, 'safeMode': mode, 'n': 1, 'line_level': True,
+                       'loose': bool(before)}
 
     def execute(self, case, ctx, res):
         base = {'safeMode': case['safeMode'], 'reset': True, 'callback': True}
@@ -875,7 +897,7 @@ class C17(Prop):
             return
         res.oracle_checks += 1
         st = ctx.impl.state()
-        if a[1] != case['expected']:
+        if (nonl(a[1]) != nonl(case['expected'])) if case.get('loose') else (a[1] != case['expected']):
             res.violation('an escaped element was not rendered as its literal text', case, {'got': a[1], 'expected': case['expected']})
             return
         for k in (0, 1, 3, 4, 5, 6, 7, 8, 9, 10, 11):
@@ -910,7 +932,10 @@ class C02(Prop):
         for src in ["{m} = '{m|$1 $1}'\n{m|a}", "{v1}='$1 $2'{v2}='{v1|1|2>>} $1 $+2'\n{v2|3|4} {v1|5|6}",
                     "{a} = '{b|$1.}'\n{b} = '{a|$1.}'\n{a|x}", "{m} = '{m|$1 x}\n{m|$1 y}'\n{m|a}", "{m} = 'x\n{m}'\n{m}",
                     # a sibling expansion before the recursive invocation (the end of the outer expansion must move with it)
-                    "{m} = '{leaf}\n{m|$1 x}'\n{leaf} = '# L'\n{m|a}", "{m} = '{leaf}\n// c\n{m|$1 x}\n# t'\n{leaf} = '# L\n## M'\n{m|a}"]:
+                    "{m} = '{leaf}\n{m|$1 x}'\n{leaf} = '# L'\n{m|a}", "{m} = '{leaf}\n// c\n{m|$1 x}\n# t'\n{leaf} = '# L\n## M'\n{m|a}",
+                    # two levels of nested expansion before the recursive invocation (every enclosing end must move)
+                    "{h}='# h'\n{w}='\\{h}'\n{a}='\\{w}\n\\{b}'\n{b}='\\{w}\n\\{a}'\n{a}",
+                    "{h}='hello'\n{a}='\\{h}\n\n\\{b}'\n{b}='\\{a}'\n{a}"]:
             out.append({'kind': 'macro', 'src': src, 'safeMode': 0, 'must_finish': True})
         size = 4096 if ctx.tier == 'quick' else 8192
         for unit in ['<a|', '<a@b|', '<image:a|']:
@@ -961,6 +986,28 @@ class C02(Prop):
                 # defined last-first: a value is expanded when it is defined, so only forward references survive as invocations
                 defs.reverse()
                 yield {'kind': 'macro', 'src': '\n'.join(defs) + '\n\n' + '\n'.join(body), 'safeMode': rng.choice([0, 0, 8, 15]), 'must_finish': True}
+            elif k < 0.42:
+                # systems of line macros that invoke one another (invocations escaped in the values, so that they survive the
+                # definition): cycles with one or two levels of nested expansion before the recursive invocation, helper
+                # expansions before and after it
+                names = ['a', 'b', 'c', 'w', 'h'][:rng.randint(3, 5)]
+                defs = []
+                for nm in names:
+                    nlines = rng.randint(1, 3)
+                    vals = []
+                    rec_budget = 2
+                    for _ in range(nlines):
+                        if rec_budget and rng.random() < 0.7:
+                            vals.append('\\{%s}' % rng.choice(names))
+                            rec_budget -= 1
+                        else:
+                            vals.append(rng.choice(['# leaf', '// c', 'text']))
+                    defs.append("{%s} = '%s'" % (nm, '\n'.join(vals)))
+                if rng.random() < 0.5:
+                    defs.append("{h} = '# h'")       # a leaf that the others can reach
+                body = ['{%s}' % rng.choice(names) for _ in range(rng.randint(1, 2))]
+                yield {'kind': 'macro', 'src': '\n'.join(defs) + '\n\n' + '\n\n'.join(body), 'safeMode': rng.choice([0, 0, 8, 9, 15]),
+                       'must_finish': True}
             elif k < 0.5:
                 names = ['m', 'n', 'k']
                 lines = []
